@@ -17,7 +17,12 @@ between the shell and the recorded output:
 * the single-script mode: splitting the captured streams at the divider lines gives back, for every
   test, exactly its payload (terminated or not) and exit code (`C13_divider_roundtrip_partial`,
   `C13_divider_roundtrip_combined_partial`, `C13_stream_roundtrip_partial`,
-  `C13_divider_lookalike_is_output`).
+  `C13_divider_lookalike_is_output`); the value on the STDERR dividers is irrelevant
+  (`C13_divider_roundtrip_stderr_code_ignored`);
+* the TEXT of the one script (`compile_script`): every expression is followed by an empty line and
+  then by a line that is exactly `__SCRUT_EXIT_CODE=$?`, before the divider `echo` of its own test;
+  no divider line contains `$?` (`C13_script_lines_around_expression`,
+  `C13_script_exit_code_taken_by_assignment`, `C13_script_dividers_do_not_read_status`).
 
 NOT proved (exercised with real processes by the harness): what bash does with the script text,
 that the streams it writes are `joinStream` of the payloads, pipes, `Redirection::Merge` order,
@@ -155,16 +160,34 @@ theorem C13_stream_roundtrip_partial (limit : Option Nat) (salt : Bytes) (hs : C
   exact iterLines_joinStream limit salt hs hsl h126 tests 0 hg (by simpa using hlen) (by simpa using hlim)
 
 /-- `execute_all`, separated streams: every test gets back its own stdout, stderr and exit code.
-Guards: payloads free of this execution's divider start, no test ends with the skip code. -/
+Guards: payloads free of this execution's divider start, no test ends with the skip code.
+The STDERR dividers carry the test's own exit code as well (`1>&2 echo "…$__SCRUT_EXIT_CODE"`;
+before the exit code was taken by an assignment of its own they carried 0, the status of the
+`echo` in front of them). -/
 theorem C13_divider_roundtrip_partial (salt : Bytes) (hs : COLON ∉ salt) (hsl : Divider.LF ∉ salt)
     (h126 : (126 : UInt8) ∉ salt) (skip scriptExit : Int)
     (tests : List (Bytes × Bytes × Nat)) (hse : scriptExit ≠ skip) (hlen : tests.length ≤ 2 ^ 64)
     (hg : ∀ t ∈ tests, noSalted salt t.1 = true ∧ noSalted salt t.2.1 = true ∧ t.2.2 < 2 ^ 31 ∧ (t.2.2 : Int) ≠ skip) :
     executeAll salt tests.length false skip scriptExit
         (joinStream salt 0 (tests.map fun t => (t.1, t.2.2)))
-        (joinStream salt 0 (tests.map fun t => (t.2.1, 0))) =
+        (joinStream salt 0 (tests.map fun t => (t.2.1, t.2.2))) =
       .ok (tests.map fun t => ⟨t.1, t.2.1, (t.2.2 : Int)⟩) :=
-  executeAll_separate salt hs hsl h126 skip scriptExit tests hse hlen hg
+  executeAll_separate salt hs hsl h126 skip scriptExit tests (fun t => t.2.2) hse hlen hg
+    (fun t ht => (hg t ht).2.2.1)
+
+/-- … and the value on the STDERR dividers is never used: whatever code (`ec`, below 2^31) they
+carry -- the test's own, or 0 as with the former script text -- the result is the same -/
+theorem C13_divider_roundtrip_stderr_code_ignored (salt : Bytes) (hs : COLON ∉ salt) (hsl : Divider.LF ∉ salt)
+    (h126 : (126 : UInt8) ∉ salt) (skip scriptExit : Int)
+    (tests : List (Bytes × Bytes × Nat)) (ec : Bytes × Bytes × Nat → Nat)
+    (hse : scriptExit ≠ skip) (hlen : tests.length ≤ 2 ^ 64)
+    (hg : ∀ t ∈ tests, noSalted salt t.1 = true ∧ noSalted salt t.2.1 = true ∧ t.2.2 < 2 ^ 31 ∧ (t.2.2 : Int) ≠ skip)
+    (hec : ∀ t ∈ tests, ec t < 2 ^ 31) :
+    executeAll salt tests.length false skip scriptExit
+        (joinStream salt 0 (tests.map fun t => (t.1, t.2.2)))
+        (joinStream salt 0 (tests.map fun t => (t.2.1, ec t))) =
+      .ok (tests.map fun t => ⟨t.1, t.2.1, (t.2.2 : Int)⟩) :=
+  executeAll_separate salt hs hsl h126 skip scriptExit tests ec hse hlen hg hec
 
 /-- `execute_all`, merged streams (`output_stream: combined`) -/
 theorem C13_divider_roundtrip_combined_partial (salt : Bytes) (hs : COLON ∉ salt) (hsl : Divider.LF ∉ salt)
@@ -196,6 +219,78 @@ theorem C13_divider_guard_needed :
     executeAll [83] 1 true 80 0 (joinStream [83] 0 [(needle [83] ++ [48, 58, 58, 48, 10], 0)]) [] = .failed 0 := by
   decide
 
+/-! ## the script text of the single-script mode (`compile_script`)
+
+What bash does with the text is not modelled; these statements are about the text itself, for every
+salt, stream mode, list of `export` lines and list of expressions.  Fix: the exit code of an
+expression is taken by a command of its own, `__SCRUT_EXIT_CODE=$?`, and the divider lines expand
+that variable.  With the former text (`echo "<divider>::$?"` directly behind the empty line) an
+expression that ends in `|` made the divider `echo` the rest of the user's pipeline: its output was
+swallowed and `$?` was the status of the `echo`, 0.  Now what can be swallowed is the assignment, and
+the divider is then left without an exit code (`parse_divider_bytes` fails: execution error). -/
+
+/-- the line that follows every expression is literally `__SCRUT_EXIT_CODE=$?` -/
+example : assignLine = ['_', '_', 'S', 'C', 'R', 'U', 'T', '_', 'E', 'X', 'I', 'T', '_', 'C', 'O', 'D', 'E', '=', '$', '?'] := by decide
+
+/-- **script layout, line by line**: around ANY expression `e` (test number `pre.length`) the script
+lines are: `e`, an empty line, `__SCRUT_EXIT_CODE=$?`, `echo "<divider>"`, `1>&2 echo "<divider>"`
+(unless combined), `unset __SCRUT_EXIT_CODE`; before them the lines of the tests before, after them
+those of the tests after. -/
+theorem C13_script_lines_around_expression (salt : List Char) (combined : Bool)
+    (pre : List (List Char)) (e : List Char) (post : List (List Char)) :
+    scriptLines salt combined 0 (pre ++ e :: post) =
+      scriptLines salt combined 0 pre ++
+        ([e, [], assignLine, echoLine salt pre.length] ++
+          (if combined then [] else [echoErrLine salt pre.length]) ++ [unsetLine]) ++
+        scriptLines salt combined (pre.length + 1) post := by
+  rw [scriptLines_append]
+  simp only [scriptLines, Nat.zero_add, testLines, List.append_assoc]
+
+/-- **the exit code is taken by a command of its own** (statement on the TEXT handed to bash): around
+ANY expression `e` the compiled script is `head ++ e ++ "\n\n__SCRUT_EXIT_CODE=$?\necho
+\"<divider>\"\n" ++ ["1>&2 echo \"<divider>\"\n"] ++ "unset __SCRUT_EXIT_CODE" ++ tail`, where `head` is
+empty or ends with a newline and `tail` is empty or starts with one: the expression starts on a
+line of its own, it reaches the shell verbatim, and the first line behind it that is not empty is
+exactly the assignment, followed by the divider `echo` of THIS test (index `pre.length`). -/
+theorem C13_script_exit_code_taken_by_assignment (salt : List Char) (combined : Bool)
+    (exports pre : List (List Char)) (e : List Char) (post : List (List Char)) :
+    ∃ head tail : List Char,
+      compileScript salt combined exports (pre ++ e :: post) =
+        head ++ (e ++ [NL, NL] ++ assignLine ++ [NL] ++ echoLine salt pre.length ++ [NL] ++
+          (if combined then [] else echoErrLine salt pre.length ++ [NL]) ++ unsetLine) ++ tail ∧
+      (head = [] ∨ head.getLast? = some NL) ∧ (tail = [] ∨ tail.head? = some NL) :=
+  compileScript_at salt combined exports pre e post
+
+/-- **no divider line reads `$?`**: for a salt without `?` (the real one is alphanumeric) the two
+divider `echo` lines of every test hold no `?` at all, so `$?` does not occur in them; and a line of
+the script in which `$?` occurs is one of the user's expressions or the assignment line.  Hence the
+only command of scrut's own that reads a status is the assignment, and the status it can read is
+that of what stands directly in front of it. -/
+theorem C13_script_dividers_do_not_read_status (salt : List Char) (combined : Bool) (hs : '?' ∉ salt) :
+    (∀ k, '?' ∉ echoLine salt k ∧ '?' ∉ echoErrLine salt k ∧
+      ¬ ['$', '?'] <:+: echoLine salt k ∧ ¬ ['$', '?'] <:+: echoErrLine salt k) ∧
+    ∀ (exprs : List (List Char)) (i : Nat) (l : List Char), l ∈ scriptLines salt combined i exprs →
+      ['$', '?'] <:+: l → l ∈ exprs ∨ l = assignLine := by
+  have hq : ∀ l : List Char, ['$', '?'] <:+: l → '?' ∈ l := by
+    intro l h
+    obtain ⟨s, t, rfl⟩ := h
+    simp
+  refine ⟨fun k => ⟨qmark_not_mem_echoLine salt k hs, qmark_not_mem_echoErrLine salt k hs,
+    fun h => qmark_not_mem_echoLine salt k hs (hq _ h),
+    fun h => qmark_not_mem_echoErrLine salt k hs (hq _ h)⟩, ?_⟩
+  intro exprs i l hl h
+  exact scriptLines_qmark salt combined hs exprs i l hl (hq _ h)
+
+set_option maxRecDepth 10000 in
+/-- the script for `export A=b`, `sh -c 'exit 7' |` and `true`, separate streams, salt `S` -/
+example : compileScript ['S'] false [['e', 'x', 'p', 'o', 'r', 't', ' ', 'A', '=', 'b']] [['s', 'h', ' ', '-', 'c', ' ', '\'', 'e', 'x', 'i', 't', ' ', '7', '\'', ' ', '|'], ['t', 'r', 'u', 'e']] =
+    ['e', 'x', 'p', 'o', 'r', 't', ' ', 'A', '=', 'b', '\n', 's', 'h', ' ', '-', 'c', ' ', '\'', 'e', 'x', 'i', 't', ' ', '7', '\'', ' ', '|', '\n', '\n', '_', '_', 'S', 'C', 'R', 'U', 'T', '_', 'E', 'X', 'I', 'T', '_', 'C', 'O', 'D', 'E', '=', '$', '?', '\n', 'e', 'c', 'h', 'o', ' ', '"', '~', '~', '~', '~', '~', '~', '~', '~', 'E', 'X', 'E', 'C', 'D', 'I', 'V', 'I', 'D', 'E', 'R', ':', ':', 'S', ':', ':', '0', ':', ':', '$', '_', '_', 'S', 'C', 'R', 'U', 'T', '_', 'E', 'X', 'I', 'T', '_', 'C', 'O', 'D', 'E', '"', '\n', '1', '>', '&', '2', ' ', 'e', 'c', 'h', 'o', ' ', '"', '~', '~', '~', '~', '~', '~', '~', '~', 'E', 'X', 'E', 'C', 'D', 'I', 'V', 'I', 'D', 'E', 'R', ':', ':', 'S', ':', ':', '0', ':', ':', '$', '_', '_', 'S', 'C', 'R', 'U', 'T', '_', 'E', 'X', 'I', 'T', '_', 'C', 'O', 'D', 'E', '"', '\n', 'u', 'n', 's', 'e', 't', ' ', '_', '_', 'S', 'C', 'R', 'U', 'T', '_', 'E', 'X', 'I', 'T', '_', 'C', 'O', 'D', 'E', '\n', 't', 'r', 'u', 'e', '\n', '\n', '_', '_', 'S', 'C', 'R', 'U', 'T', '_', 'E', 'X', 'I', 'T', '_', 'C', 'O', 'D', 'E', '=', '$', '?', '\n', 'e', 'c', 'h', 'o', ' ', '"', '~', '~', '~', '~', '~', '~', '~', '~', 'E', 'X', 'E', 'C', 'D', 'I', 'V', 'I', 'D', 'E', 'R', ':', ':', 'S', ':', ':', '1', ':', ':', '$', '_', '_', 'S', 'C', 'R', 'U', 'T', '_', 'E', 'X', 'I', 'T', '_', 'C', 'O', 'D', 'E', '"', '\n', '1', '>', '&', '2', ' ', 'e', 'c', 'h', 'o', ' ', '"', '~', '~', '~', '~', '~', '~', '~', '~', 'E', 'X', 'E', 'C', 'D', 'I', 'V', 'I', 'D', 'E', 'R', ':', ':', 'S', ':', ':', '1', ':', ':', '$', '_', '_', 'S', 'C', 'R', 'U', 'T', '_', 'E', 'X', 'I', 'T', '_', 'C', 'O', 'D', 'E', '"', '\n', 'u', 'n', 's', 'e', 't', ' ', '_', '_', 'S', 'C', 'R', 'U', 'T', '_', 'E', 'X', 'I', 'T', '_', 'C', 'O', 'D', 'E'] := by decide
+
+set_option maxRecDepth 10000 in
+/-- … and for `a |` alone, `combined` -/
+example : compileScript ['S'] true [] [['a', ' ', '|']] =
+    ['a', ' ', '|', '\n', '\n', '_', '_', 'S', 'C', 'R', 'U', 'T', '_', 'E', 'X', 'I', 'T', '_', 'C', 'O', 'D', 'E', '=', '$', '?', '\n', 'e', 'c', 'h', 'o', ' ', '"', '~', '~', '~', '~', '~', '~', '~', '~', 'E', 'X', 'E', 'C', 'D', 'I', 'V', 'I', 'D', 'E', 'R', ':', ':', 'S', ':', ':', '0', ':', ':', '$', '_', '_', 'S', 'C', 'R', 'U', 'T', '_', 'E', 'X', 'I', 'T', '_', 'C', 'O', 'D', 'E', '"', '\n', 'u', 'n', 's', 'e', 't', ' ', '_', '_', 'S', 'C', 'R', 'U', 'T', '_', 'E', 'X', 'I', 'T', '_', 'C', 'O', 'D', 'E'] := by decide
+
 /-! ## non-vacuity -/
 
 /-- `\r\r\n` keeps one CR in front of the LF (and the result contains a CR LF again) -/
@@ -212,7 +307,7 @@ example : render (PH_PERSIST ++ [' '] ++ PH_EXPR) [] [] [] [] false (PH_PERSIST 
 /-- the guards of the round trip are satisfiable: unterminated, empty and binary payloads -/
 example : executeAll [83] 3 false 80 0
     (joinStream [83] 0 [([97, 10, 98], 3), ([], 0), ([0, 255, 10], 255)])
-    (joinStream [83] 0 [([101], 0), ([], 0), ([126, 126, 10, 10], 0)]) =
+    (joinStream [83] 0 [([101], 3), ([], 0), ([126, 126, 10, 10], 255)]) =
     .ok [⟨[97, 10, 98], [101], 3⟩, ⟨[], [], 0⟩, ⟨[0, 255, 10], [126, 126, 10, 10], 255⟩] := by decide
 
 example : noSalted [83] ([126, 126, 126, 126, 126, 126, 126, 126, 10] ++ PREFIX ++ [88, 58, 58]) = true := by decide
